@@ -25,7 +25,7 @@ def gen_call(rng, measure=None, njobs_choices=(1, 1, 1, 2, 3, 5, -1, -20), bound
     kind, tok = T.make_tokenizer(rng, kind)
     L, R, names = T.gen_tables(rng, kind)
     if m == 'OVERLAP':
-        tcls, t = 'int', rng.choice([1, 1, 2, 3])
+        tcls, t = 'int', rng.choice([1, 1, 2, 3, 1.5, 2.5, 0.5])     # documented as a float: any value > 0
         op = rng.choice(['>=', '>=', '>', '='])
     elif m == 'EDIT_DISTANCE':
         tcls, t = 'int', rng.choice([0, 1, 1, 2, 2, 3, 2.5, 1.0])
